@@ -379,6 +379,10 @@ impl<'a> Interpreter<'a> {
                                             callable: self.callable_by_name(ident.as_str())?,
                                             value: obj,
                                         });
+                                    } else if obj.is_err() {
+                                        // a member of a failed value fails the same way,
+                                        // it is not a missing field
+                                        stack.push_val(obj);
                                     } else {
                                         stack.push(
                                             CelValue::from_err(CelError::attribute(
